@@ -168,5 +168,61 @@ UNITS += [
          ),
 ]
 
+WPP = dict(wrap_open="impl PrunePack {", wrap_close="}")
+UNITS += [
+    Unit(name="into_index_pack", file=PR, anchor="fn into_index_pack(self, time: Timestamp) -> IndexPack", within="impl PrunePack {", ret_name="r", **WPP,
+         functions=["commands::prune::PrunePack::into_index_pack"],
+         contract="\n    ensures /*@into_index_pack_keeps_id_blobs_time*/ r.id == self.id && r.blobs == self.blobs && r.time == (if self.time is Some { self.time } else { Some(time) }),\n"),
+    Unit(name="into_index_pack_with_time", file=PR, anchor="fn into_index_pack_with_time(self, time: Timestamp) -> IndexPack", within="impl PrunePack {", ret_name="r", **WPP,
+         functions=["commands::prune::PrunePack::into_index_pack_with_time"],
+         contract="\n    ensures /*@into_index_pack_with_time*/ r.id == self.id && r.blobs == self.blobs && r.time == Some(time),\n"),
+    # execution phase: what prune_repository does with ONE pack for each decision
+    Unit(name="execute_pack_decision", file=PR, kind="block", within="pub(crate) fn prune_repository<S: Open>(",
+         anchor="match pack.to_do {", block_end="@matching_brace",
+         block_sig="fn execute_pack_decision(mut pack: PrunePack, opts: &VPruneOpts, indexer: &mut VIndexerLog, removed: &mut VRemoved, used_ids: &mut VUsedSet, repack_packs: &mut Vec<PrunePack>, prune_time: Timestamp) -> (r: RusticResult<()>)",
+         block_tail="    Ok(())",
+         functions=["commands::prune::prune_repository (per-pack `match pack.to_do` statement of the index rebuilding loop)"],
+         rewrites=[
+             Rw("", "verr()", count=None, kind="err", why="RusticError construction dropped"),
+             Rw("delete_pack(&pack)", "removed.vdelete_pack(&pack)", count=None, why="local closure delete_pack -> effectful stub whose PRECONDITION is 'this decision allows removal'"),
+             Rw("indexer.add(pack)?", "indexer.vadd(pack, Ghost(decision))?", count=None, why="Indexer::add (live section) -> effectful stub: PRECONDITION 'the decision keeps the pack live'"),
+             Rw("indexer.add_remove(pack)?", "indexer.vadd_remove(pack, Ghost(decision))?", count=None, why="Indexer::add_remove (marked section) -> effectful stub: PRECONDITION 'the decision allows marking'"),
+             Rw("pack.blobs\n                        .retain(|blob| used_ids.remove(&blob.id).is_some());", "vretain_still_used(&mut pack.blobs, used_ids);", why="Vec::retain with the closure literal |blob| used_ids.remove(&blob.id).is_some() -> stub (assumed contract)"),
+             Rw("pack.blobs.sort_unstable();", "vsort_blobs_c02(&mut pack.blobs);", why="sort_unstable: permutation"),
+         ],
+         contract="""
+    ensures
+        /*@undecided_pack_aborts_prune*/ pack.to_do == PackToDo::Undecided ==> r is Err,
+        // a pack that is repacked is queued with every blob of it that is still needed (no needed blob is dropped) ...
+        /*@repack_queues_every_still_needed_blob*/ r is Ok && pack.to_do == PackToDo::Repack ==> final(repack_packs)@.len() == old(repack_packs)@.len() + 1
+            && final(repack_packs)@.last().id == pack.id
+            && forall|b: IndexBlob| pack.blobs@.contains(b) && old(used_ids).s@.contains(bid(b)) ==>
+                   exists|j: int| 0 <= j < final(repack_packs)@.last().blobs@.len() && bid(#[trigger] final(repack_packs)@.last().blobs@[j]) == bid(b),
+        // ... and nothing else touches the queue or the set of blobs still to be carried over
+        /*@other_decisions_leave_queue_and_used_ids*/ pack.to_do != PackToDo::Repack ==> final(repack_packs)@ == old(repack_packs)@ && final(used_ids).s@ == old(used_ids).s@,
+        // (implicit obligations, preconditions of the effectful stubs: only Keep/Recover packs enter the live section of the new
+        //  index; only Repack/MarkDelete/KeepMarked* packs are marked; only those and Delete packs are ever removed)
+""",
+         hints=[("before", "match pack.to_do {", "    let ghost decision = pack.to_do;"),
+                ("after", "vsort_blobs_c02(&mut pack.blobs);", """                    proof {
+                        let kept = retained;
+                        assert forall|b: IndexBlob| old_blobs.contains(b) && old(used_ids).s@.contains(bid(b)) implies
+                            exists|j: int| 0 <= j < pack.blobs@.len() && bid(#[trigger] pack.blobs@[j]) == bid(b) by {
+                            let j0 = choose|j0: int| 0 <= j0 < kept.len() && bid(#[trigger] kept[j0]) == bid(b);
+                            kept.to_multiset_ensures();
+                            pack.blobs@.to_multiset_ensures();
+                            assert(kept.contains(kept[j0]));
+                            assert(pack.blobs@.to_multiset().count(kept[j0]) > 0);
+                            assert(pack.blobs@.contains(kept[j0]));
+                            let j1 = choose|j1: int| 0 <= j1 < pack.blobs@.len() && pack.blobs@[j1] == kept[j0];
+                            assert(bid(pack.blobs@[j1]) == bid(b));
+                        }
+                    }"""),
+                ("after", "vretain_still_used(&mut pack.blobs, used_ids);", "                    let ghost retained = pack.blobs@;"),
+                ("before", "vretain_still_used(&mut pack.blobs, used_ids);", "                    let ghost old_blobs = pack.blobs@;"),
+         ],
+         ),
+]
+
 KANI = []
 META = {"not_covered": []}
